@@ -32,25 +32,28 @@ NONTERMINALS = ["SubProperty", "AssignablePropperty", "Property", "PropertyExpr"
 # matched as whole skeletons (white space removed); Model/QuerySmc.lean is the hand-written reading of exactly these texts
 SMC_SKELETONS = {
     "PROBA_BOX": 'flag=true;[[fallthrough]];',
-    "PROBA_DIAMOND": 'os<<"Pr[";print_bound_type(os,get(1));get(2).print(os,old);if(get(0).get_value()>=0)get(0).print(os<<";",old);'
+    "PROBA_DIAMOND": 'os<<"Pr[";print_bound(os,get(1),get(2),old);if(get(0).get_value()>=0)get(0).print(os<<";",old);'
                      'if(flag||get(4).is_true()){os<<(flag?"]([]":"](<>");get(3).print(os,old)<<")";}'
                      'else{get(3).print(os<<"](",old)<<"U";get(4).print(os,old)<<")";}break;',
-    "PROBA_EXP": 'os<<"E[";print_bound_type(os,get(1));get(2).print(os,old);if(get(0).get_value()>=0)get(0).print(os<<";",old);'
+    "PROBA_EXP": 'os<<"E[";print_bound(os,get(1),get(2),old);if(get(0).get_value()>=0)get(0).print(os<<";",old);'
                  'os<<"]("<<(get(3).get_value()?"max:":"min:");get(4).print(os,old)<<")";break;',
     "PROBA_MIN_BOX": 'flag=true;[[fallthrough]];',
-    "PROBA_MIN_DIAMOND": 'os<<"Pr[";print_bound_type(os,get(1));get(2).print(os,old);if(get(0).get_value()>=0)get(0).print(os<<";",old);'
-                         'os<<(flag?"]([]":"](<>");get(3).print(os,old)<<")>="<<get(4).get_double_value();break;',
-    "PROBA_CMP": 'os<<"Pr[";print_bound_type(os,get(0));get(1).print(os,old)<<"](";os<<(get(2).get_value()==kind_t::BOX?"[]":"<>");'
-                 'get(3).print(os,old)<<")>=";os<<"Pr[";print_bound_type(os,get(4));get(5).print(os,old)<<"](";'
+    "PROBA_MIN_DIAMOND": 'os<<"Pr[";print_bound(os,get(1),get(2),old);if(get(0).get_value()>=0)get(0).print(os<<";",old);'
+                         'os<<(flag?"]([]":"](<>");print_double(get(3).print(os,old)<<")>=",get(4).get_double_value());break;',
+    "PROBA_CMP": 'os<<"Pr[";print_bound(os,get(0),get(1),old)<<"](";os<<(get(2).get_value()==kind_t::BOX?"[]":"<>");'
+                 'get(3).print(os,old)<<")>=";os<<"Pr[";print_bound(os,get(4),get(5),old)<<"](";'
                  'os<<(get(6).get_value()==kind_t::BOX?"[]":"<>");get(7).print(os,old)<<")";break;',
-    "SIMULATEREACH": 'os<<"simulate[";print_bound_type(os,get(1));get(2).print(os,old)<<";";get(0).print(os,old)<<"]{";nb=get_size()-5;'
+    "SIMULATEREACH": 'os<<"simulate[";print_bound(os,get(1),get(2),old)<<";";get(0).print(os,old)<<"]{";nb=get_size()-5;'
                      'if(nb>0){get(3).print(os,old);for(inti=1;i<nb;++i)get(3+i).print(os<<",",old);}os<<"}:";'
                      'get(4+nb).print(os,old)<<":";get(3+nb).print(os,old);break;',
-    "SIMULATE": 'os<<"simulate[";print_bound_type(os,get(1));get(2).print(os,old)<<";";get(0).print(os,old)<<"]{";nb=get_size()-3;'
+    "SIMULATE": 'os<<"simulate[";print_bound(os,get(1),get(2),old)<<";";get(0).print(os,old)<<"]{";nb=get_size()-3;'
                 'if(nb>0){get(3).print(os,old);for(inti=1;i<nb;++i)get(3+i).print(os<<",",old);}os<<"}";break;',
 }
-BOUND_TYPE_SKELETON = ('if(e.get_kind()==CONSTANT){assert(e.get_type().is(Constants::INT));if(e.get_value()==0){os<<"#";}}'
-                       'else{e.print(os,false);}os<<"<=";returnos;')
+BOUND_TYPE_SKELETON = ('if(boundType.get_kind()==CONSTANT)returnbound.print(os<<(boundType.get_value()==0?"#<=":"<="),old);'
+                       'returnexpression_t::create_binary(LE,boundType,bound).print(os,old);')
+# floating-point constants: the shortest text that reads back as the same value, never an integer literal
+PRINT_DOUBLE_SKELETON = ('charbuffer[32];auto[end,ec]=std::to_chars(buffer,buffer+sizeof(buffer),value);autotext=(ec==std::errc{})?'
+                         'std::string(buffer,end):std::to_string(value);if(text.find_first_of(".en")==std::string::npos)text+=".0";returnos<<text;')
 # the literals of those texts, by the name the Lean printer uses for them
 SMC_LITERALS = {"pr": "Pr[", "runs": "; ", "box": "]([] ", "diamond": "](<> ", "untilOpen": "](", "until": " U ", "close": ")", "ex": "E[",
                 "exOpen": "] (", "colon": ":", "sim": "simulate[", "simOpen": "] {", "comma": ", ", "simClose": "}", "steps": "#", "leq": "<=",
@@ -197,9 +200,13 @@ def extract(repo="/repo"):
     seen = {l for labels, _ in groups for l in labels}
     if not set(SMC_SKELETONS) <= seen:
         raise TranslateError("print cases not found: %r" % sorted(set(SMC_SKELETONS) - seen))
-    bt = printer.body_of(src, r"std::ostream&\s*expression_t::print_bound_type\s*\(\s*std::ostream&\s*os\s*,\s*expression_t\s+e\s*\)\s*const\s*\{")
+    bt = printer.body_of(src, r"static\s+std::ostream&\s*print_bound\s*\(\s*std::ostream&\s*os\s*,\s*const\s+expression_t&\s*boundType\s*,\s*const\s+expression_t&\s*bound\s*,\s*bool\s+old\s*\)\s*\{")
     if re.sub(r"\s+", "", bt) != BOUND_TYPE_SKELETON:
-        raise TranslateError("print_bound_type is not the text the statistical query model was written from: %r" % re.sub(r"\s+", "", bt)[:300])
+        raise TranslateError("print_bound is not the text the statistical query model was written from: %r" % re.sub(r"\s+", "", bt)[:300])
+    pd = printer.body_of(src, r"static\s+std::ostream&\s*print_double\s*\(\s*std::ostream&\s*os\s*,\s*double\s+value\s*\)\s*\{")
+    if re.sub(r"\s+", "", pd) != PRINT_DOUBLE_SKELETON:
+        raise TranslateError("print_double is not the text the models were written from (a double literal is kept as a text that reads back as "
+                             "the same value): %r" % re.sub(r"\s+", "", pd)[:300])
     missing = [k for k in KINDS + ["LIST"] if k not in layouts]
     if missing:
         raise TranslateError("print cases not found: %r" % missing)
